@@ -26,6 +26,11 @@ def run(chk):
     batcher.termination(chk, P, "C08")
     batcher.watchers_after_last_attempt(chk, P, "C08")
     batcher.tokio_blocking(chk, P, "C08")
+    if not getattr(chk, "_overlay", None):
+        batcher.tokio_worker_runtime(chk, P, "C08")
+        from . import c07
+        c07.otlp_flush_budget(chk, P, "C08.R4:otlp-flush-budget")
+    batcher.retry_remainder(chk, P, "C08")
     batcher.tokio_wait(chk, P, "C08")
     batcher.time_arithmetic(chk, P, "C08")
     batcher.send_rules(chk, P, "C08")
